@@ -263,7 +263,7 @@ def main():
                    baseline_off_cmd="cd /repo && GOFLAGS=-mod=mod GOPROXY=off GOSUMDB=off GOTOOLCHAIN=local go test -vet=off -count=1 -timeout 25m ./...",
                    source_commits=[], add_only=True),
         engines=[dict(name="coq-model", path="/verif/coq", serves_properties=sorted(CLAIMED.keys()),
-                      kind_free_text="hand-written executable Gallina model + specification, theorems in theories/Properties.v; "
+                      kind_free_text="hand-written executable Gallina model + specification, theorems in theories/P_<id>.v (one file per property); "
                                      "constants regenerated from /repo by harness/cmd/genfacts; extracted OCaml model run against the "
                                      "implementation by checks/check.py")],
         checks=checks,
